@@ -283,6 +283,44 @@ theorem pinv_step (p p' : Pipe) (e : PEv) (hi : PInv p) (hok : e.ok) (h : stepP 
             · exact Or.inl (Or.inl h)
             · exact Or.inr h
           · exact Or.inl (Or.inr hx)
+  | proxyUpdate c ver =>
+    simp only [stepP] at h
+    split at h
+    · simp only [Option.some.injEq] at h; subst h
+      have e := startPush_spec p.snd.q hi.sI.qinv hi.sI.nn (puView ver) [c]
+      have hs' : InvS { p.snd with q := (enqueueAll { p.snd.q with heap := allocView p.snd.q.heap (puView ver) }
+          p.snd.q.heap.reqs.length [c]) } :=
+        { qinv := e.inv, balance := hi.sI.balance, bound := hi.sI.bound
+          proc := fun c => by
+            have := e.proc c
+            have h2 := hi.sI.proc c
+            simp only [inflight] at h2 ⊢
+            rw [this]; exact h2
+          nodup := hi.sI.nodup, once := hi.sI.once, nn := e.nn, alive := hi.sI.alive }
+      refine { sI := hs', dI := hi.dI, fl := ?_, acc := hi.acc, deb := hi.deb, bro := ?_, sl := ?_, dr := hi.dr }
+      · intro f hf; exact okRef_le e.le (hi.fl f hf)
+      · intro hd c' hcm x hx
+        have hd' : p.snd.q.down = false := by rw [← e.down]; exact hd
+        simp only [hd', Bool.false_eq_true, if_false, mem_logOf_snoc]
+        rcases hi.bro hd' c' hcm x hx with h | h
+        · exact Or.inl h
+        · exact Or.inr (Or.inl h)
+      · intro c' x hx
+        simp only [Held, flightFacts_L]
+        rw [flightFactsL_grow _ _ _ c' e.le hi.sI.qinv.wf hi.fl, e.mail c' x]
+        by_cases hd : p.snd.q.down = true
+        · simp only [hd, if_true] at hx
+          have hold := hi.sl c' x hx
+          simp only [Held, flightFacts_L] at hold
+          rcases hold with h | h | h | h <;> simp [h]
+        · have hd' : p.snd.q.down = false := by simpa using hd
+          simp only [hd', Bool.false_eq_true, if_false, mem_logOf_snoc] at hx
+          rcases hx with hx | ⟨hcm, hx⟩
+          · have hold := hi.sl c' x hx
+            simp only [Held, flightFacts_L] at hold
+            rcases hold with h | h | h | h <;> simp [h]
+          · exact Or.inr (Or.inr (Or.inl (Or.inr ⟨hd', by simp [hcm], hx⟩)))
+    · cases h
   | startPush =>
     simp only [stepP] at h
     cases ht : p.toStart with
@@ -430,9 +468,17 @@ theorem pinv_step (p p' : Pipe) (e : PEv) (hi : PInv p) (hok : e.ok) (h : stepP 
                   rw [hf1, mail_dequeue_other p.snd.q c rest hq c' hcc]
                   exact hold
           · cases hs
+        | loopReturn c =>
+          simp only [hs, Option.some.injEq] at h; subst h
+          simp only [stepS] at hs; split at hs
+          · cases hs
+          · simp only [Option.some.injEq] at hs; subst hs
+            exact pinv_snd_neutral p _ hi hS ⟨rfl, rfl, rfl⟩ rfl id (fun c' h => by by_cases hc : c' = c <;> simp [hc, h]) id
         | deliver c =>
           simp only [hs, Option.some.injEq] at h; subst h
           simp only [stepS] at hs
+          split at hs
+          · cases hs
           cases htk : takeFlight c p.snd.parked with
           | none => simp [htk] at hs
           | some pr =>
@@ -563,6 +609,43 @@ theorem pipeline_delivered_at_rest (o : DOpts) (h : Heap) (hwf : h.wf = true) (c
   have := pipeline_no_loss o h hwf cap cs es hok p hr hd c hc x hx
   rw [h1, h2, h3, h4, h5, h6, h7] at this
   simpa [factsL, factsO] using this
+
+/-! ## Liveness: per stage, and every stage step is a step of the composition
+
+There is no end-to-end liveness theorem ("a notification accepted by `ConfigUpdate` is eventually handed
+to every live stream loop").  What is proved is per stage: `debounce_eventually` / `debounce_max_delay`
+(a pending request is pushed once its timer fires, at the latest `max` after the batch began),
+`loop_can_proceed` (the sender loop takes the head of the queue whenever the semaphore has room),
+`flight_exit_releases` (every flight has a releasing exit).  The four lemmas below say that the steps
+those theorems speak about are steps of the composed system, and that the two stages that are plain
+buffers (the push channel, the list of entered `pushFn` calls) can always hand on their head - so each
+per-stage statement holds inside the composition, one stage at a time.  Chaining them into one schedule
+needs fairness and environment assumptions that are not modelled (timers fire, `pushFn` returns, clients
+read, the semaphore is not held by clients that have stopped reading). -/
+
+/-- The push channel can always hand its head to the debounce loop. -/
+theorem chan_head_can_be_received (p : Pipe) (v : View) (rest : List View) (h : p.chan = v :: rest) :
+    ∃ p', stepP p .recv = some p' ∧ p'.chan = rest ∧ p'.db = onRecv p.opts p.db v := by
+  simp [stepP, h, stepD]
+
+/-- An entered `pushFn` can always run `StartPush`; every registered connection is handed its request. -/
+theorem entered_push_can_start (p : Pipe) (v : View) (rest : List View) (h : p.toStart = v :: rest) :
+    ∃ p', stepP p .startPush = some p' ∧ p'.toStart = rest ∧ p'.version = p.version + 1 := by
+  simp [stepP, h]
+
+/-- A step of the debounce loop (other than taking from the channel) is a step of the composition; what it
+    hands to `pushFn` is what `StartPush` will be run with. -/
+theorem debounce_step_is_pipeline_step (p : Pipe) (e : Ev) (db' : DB) (hne : isRecv e = false)
+    (h : stepD p.opts p.db e = some db') :
+    ∃ p', stepP p (.deb e) = some p' ∧ p'.db = db' ∧ p'.toStart = p.toStart ++ newPushes p.db db' ∧
+      p'.snd = p.snd ∧ p'.chan = p.chan := by
+  simp [stepP, hne, h]
+
+/-- A step of the sender / of a stream loop (other than an enqueue) is a step of the composition. -/
+theorem sender_step_is_pipeline_step (p : Pipe) (e : SEv) (s' : Sender) (hne : isEnq e = false)
+    (h : stepS p.snd e = some s') :
+    ∃ p', stepP p (.snd e) = some p' ∧ p'.snd = s' ∧ p'.db = p.db ∧ p'.chan = p.chan ∧ p'.toStart = p.toStart := by
+  cases e <;> simp_all [stepP, isEnq]
 
 /-! ## Non-vacuity -/
 
